@@ -734,7 +734,7 @@ impl Real {
                 }
                 Outcome::Ok(Ret::Q(qv))
             }
-            Op::Checkpoint { .. } | Op::Restart { .. } | Op::Reparse { .. } => Outcome::Ok(Ret::Unit),
+            Op::Checkpoint { .. } | Op::Restart { .. } | Op::Reparse { .. } | Op::Probe { .. } => Outcome::Ok(Ret::Unit),
             Op::DtMap { doc, which, name } => {
                 use xml_dom::DocumentType;
                 if *doc >= self.docs.len() {
